@@ -22,7 +22,7 @@ def encode(x):
     return enc_len(len(payload), 0xc0) + payload
 
 
-def _item(b, i, strict=True):
+def _item(b, i, strict=True, depth=0, max_depth=200):
     """returns (value, next_index)"""
     if i >= len(b):
         raise RlpError("truncated")
@@ -65,19 +65,23 @@ def _item(b, i, strict=True):
     end = start + n
     if end > len(b):
         raise RlpError("truncated list")
+    if depth >= max_depth:
+        raise RlpError("lists nested deeper than %d" % max_depth)
     out = []
     j = start
     while j < end:
-        v, j = _item(b, j, strict)
+        v, j = _item(b, j, strict, depth + 1, max_depth)
         out.append(v)
     if j != end:
         raise RlpError("list payload overrun")
     return out, end
 
 
-def decode(b, strict=True):
+def decode(b, strict=True, max_depth=200):
+    """max_depth: list nesting beyond it is an RlpError (the firmware's parser keeps a stack of
+    MAX_RLP_CTX_DEPTH = 5 frames and answers an error beyond it; srlp.h)"""
     b = bytes(b)
-    v, j = _item(b, 0, strict)
+    v, j = _item(b, 0, strict, 0, max_depth)
     if j != len(b):
         raise RlpError("trailing bytes")
     return v
